@@ -15,7 +15,8 @@ TECH = "bounded model checking of the real Rust functions with Kani 0.68 / CBMC 
 CLAIMS = {
     "C01": (
         "Solver-decided step lemmas for the mechanisms that release output: release-by-coordinate (State::release for every state "
-        "variant; Layout::dequeue(Release) incl. one-shot deferral), one-shot termination/eviction (shared with C06). For every value of "
+        "variant; Layout::dequeue(Release) incl. one-shot deferral), one-shot termination/eviction (shared with C06), macro-key release predicate, "
+        "chords-v2 releases applied to active chords (also while chord activation is being ignored), custom-action state creation. For every value of "
         "the symbolic pre-state within the stated bounds. The liveness statement over whole histories is NOT decided: composition of the "
         "lemmas is a written induction (DESIGN.md C01).",
         "Bounds and assumptions per harness are in the evidence samples. Trusted: Kani/CBMC, the harness specs, the struct-literal Layout "
@@ -25,14 +26,16 @@ CLAIMS = {
         "The tap-hold decision function WaitingState::tick_wt/handle_hold_tap is compared with a reference written from the documentation "
         "for all three built-in variants, for every queue of <= 3 (thorough 4) symbolic events and every value of all timing scalars.",
         "Decides the 'exactly one of tap/hold/timeout, on time, on the documented triggers' clause at the level of one decision step from an "
-        "arbitrary waiting state. Not covered: custom (release-keys/except-keys) closures, consumption of the waiting slot, replay order of buffered keys "
-        "(they need Layout::tick / do_action, which CBMC does not finish; see DESIGN.md section 1).",
+        "arbitrary waiting state; plus creation of the pending decision and the tap-repress window (do_action HoldTap arm) and 'resolved exactly once' "
+        "(waiting_into_hold/tap/timeout). Not covered: custom (release-keys/except-keys) closures (Kani compiler crash), replay order of buffered keys across ticks "
+        "(tick-level kernel only in the thorough tier).",
         "DESIGN.md C05"),
     "C06": (
         "One inductive step of the one-shot state machine (handle_press / handle_release / tick_osh) from an arbitrary table "
         "(<= 3 active keys, <= 3 deferred releases, <= 2 recorded presses, all 4 end configs, all scalars): modified-key set, end triggers, expiry, "
         "deferral, pcancel, overflow eviction, and 'never lingers' (after the end nothing is modified or deferred).",
-        "Covers OneShotState only; activation through do_action(OneShot) and the pause_input_processing interaction inside Layout::tick are outside.",
+        "OneShotState transitions plus 'every non-one-shot action notifies the one-shot' for the key / output chord / layer / layer-switch / no-op / custom / macro arms of do_action. "
+        "Activation through do_action(OneShot) (does not finish) and the pause_input_processing interaction inside Layout::tick are outside.",
         "DESIGN.md C06"),
     "C09": (
         "Chords v1: table lookups vs set-theoretic reference for all masks; handle_chord: relational order-independence (two press orders, "
@@ -64,19 +67,20 @@ CLAIMS.update({
     "C04": (
         "Layer search order (current_layer, active_held_layers, trans_resolution_layer_order) and transparent resolution (resolve_coord) against the "
         "documented order for symbolic held-layer sets, base layers, both resolution settings and delegation on/off; release-by-coordinate step (shared with C01).",
-        "Read-only kernels on a Layout with 4 symbolic states / a 4-layer symbolic table. The press path through do_action and the FIFO/tick orchestration are outside "
-        "(CBMC does not finish them).",
+        "Read-only kernels on a Layout with 4 symbolic states / a 4-layer symbolic table, plus do_action step kernels with a constant action per harness "
+        "(key, output chord, layer-while-held, layer-switch, no-op; clear-on-next-action sweep). The press path with a symbolic layer stack, multi/fork, the FIFO/tick "
+        "orchestration, table construction in the parser and OS emission are outside.",
         "DESIGN.md C04"),
     "C07": (
-        "Chords-v2 half of the idle predicate only: from a state satisfying is_idle_chv2() && accepts_chords_chv2() (the conjuncts Kanata::can_block_update_idle_waiting checks), "
-        "with every other field symbolic, one tick_chv2 forwards nothing and stays idle.",
-        "The keyberon Layout::tick half and the kanata half (tick_states, wall-clock conversion, the threaded loop) are NOT decided: tick() from a symbolic idle state did not finish "
-        "within the caps (DESIGN.md section 1). This is a partial claim for one clause.",
+        "Keyberon half of the idle predicate: (a) from a chords-v2 state satisfying is_idle_chv2() && accepts_chords_chv2(), with every other field symbolic, one tick_chv2 forwards nothing "
+        "and stays idle; (b) Layout::tick() from an idle layout (the layout conjuncts of Kanata::is_idle) with symbolic scalar leftovers emits nothing, creates nothing and stays idle, twice.",
+        "The kanata half (Kanata::is_idle itself, tick_states, wall-clock conversion, the threaded loop) and 'later input is handled the same' are NOT decided. Partial claim.",
         "DESIGN.md C07"),
     "C08": (
         "One macro step per tick: process_sequences from a state with one active macro (symbolic pending delay, symbolically chosen next item) performs exactly one of "
         "delay countdown / tapped-key release / one list item; press adds exactly its key, release removes exactly the macro-held instances of its key, complete ends, finished macros are not re-queued.",
-        "Macro expansion in the parser, cancellation via do_action and the 4-slot ring eviction (see known findings) are outside.",
+        "Also: a macro's custom/unicode item is never lost when another custom event occupies the tick (process_sequence_custom), and do_action(Sequence) queues the macro once. "
+        "Macro expansion in the parser, cancellation (kernels parked: out of memory) and the 4-slot ring eviction are outside.",
         "DESIGN.md C08"),
     "C11": (
         "For every u16: OsCode::from_u16/as_u16 are inverse, the transmute to the internal KeyCode yields a declared variant with the same numeric value (checked with "
